@@ -46,3 +46,6 @@ template<class X> constexpr bool vb_is_hint = std::is_same_v<std::remove_cv_t<st
 
 extern int vb_gi; extern int* vb_gp; extern int* vb_gparr[4]; extern long vb_gl; extern char* vb_gcp;
 int vb_fplain(int); long vb_fplain2(long); void vb_takes_ptr(int*); void vb_takes_fn(int (*)(int)); int* vb_returns_ptr(); void vb_takes_long(long); void vb_takes_s(VbW);
+#include <array>
+template<int N> using H = rlbox_modelhost_sandbox<N>;   // host-ABI backend model, one type per witness
+extern std::array<int*, 4> vb_sarr; extern std::array<int (*)(int), 4> vb_sfarr; extern int (*vb_gfarr[4])(int);
